@@ -126,6 +126,15 @@ def judge(dotted, args_case, rec, lib, label, budget=None):
                           "%s raised %s: %s (%s)" % (name, out.cls, (out.msg or "")[:140], label), case)
     elif name.startswith("is_") and type(out.value) is not bool:
         rec.violation("predicate-nonbool/" + dotted, "%s returned %r" % (name, out.value), case)
+    elif dotted == "authentication.verify_signable" and len(args) == 4:
+        # fail-closed: a normal return is an acceptance; with arguments the reference model rejects it is fail-open
+        try:
+            m = models.threshold_verdict(args[0], args[1], args[2], args[3])
+        except Exception:
+            m = None
+        if m is not None and m.v == models.REJECT:
+            rec.violation("fail-open/authentication.verify_signable/observed=return/" + ("malformed-argument" if m.error == "arg" else "below-threshold"),
+                          "verify_signable returned normally although: %s (%s)" % (m.why, label), case)
     return out
 
 
@@ -247,7 +256,10 @@ def run_classes(spec, rec, lib):
                               "single-cause rejection (%s) reported as %s instead of %s" % (model.why, out.cls, err), case)
         elif err == "arg":
             rec.count("arg_error_checks")
-            if not out.accepted and out.family not in ("TypeError", "ValueError"):
+            if out.accepted:
+                rec.violation("fail-open/authentication.%s/malformed-argument/observed=return" % fn,
+                              "malformed argument (%s) did not make the call fail: it returned normally" % model.why, case)
+            elif out.family not in ("TypeError", "ValueError"):
                 rec.violation(boundary.mechanism("error-class", "authentication." + fn, "TypeError|ValueError", out),
                               "malformed argument reported as %s" % out.cls, case)
 
